@@ -22,6 +22,10 @@ def run(rep, prog, tier):
     r4(rep, prog)
     r5(rep, prog)
     r6(rep, prog)
+    rep.rule("C05-R7", "what a reload can see is a committed state (shared with C02-R5 / C04-R5): merge operations built from the committed segments carry the opstamp of the last commit (load_meta().opstamp), so a background merge that rewrites meta.json between two commits cannot publish deletes that were never committed; merges of uncommitted segments carry a fresh stamp")
+    from ..report import Retag
+    from .c04 import r5 as merge_targets
+    merge_targets(Retag(rep, "C05-R7"), prog, "C05-R7")
 
 
 def r1(rep, prog):
